@@ -33,7 +33,25 @@ P4 == Program(<<SInfer("x", Num(1)), SInfer("s", EStr(<<97, 32, 32, 98>>)),
                                                SIf(<<EBin("==", Xv, Num(2))>>, << <<Pr(<<EVar("s", T_str), Xv>>)>> >>, << <<Pr(<<EBin("*", EUn("-", Xv), Num(2))>>)>> >>)>>),
                 SFor("i", "num", <<Num(1), Num(3)>>, <<Pr(<<EIdx(EArr(<<Num(7), Num(8), Num(9)>>), EVar("i", T_num))>>)>>),
                 Pr(<<EBin("and", EBin("<=", Xv, Num(3)), EUn("!", EGrp(EBin("==", EVar("s", T_str), EStr(<<>>)))))>>)>>, <<>>, <<>>)
-Progs == << Seed(NoIns), Seed2, P3, P4 >>
+\* literals converted to any-based types, typed declarations, break / return, multi-line map inside blocks
+P5 == LET vals == EVar("vals", TArr(T_any))
+          mm == EVar("mm", TMap(T_any))
+          show == FuncDef("show", <<Param("xs", TArr(T_any)), Param("m", TMap(T_any))>>, <<>>, T_num,
+                          <<SFor("e", "arr", <<EVar("xs", TArr(T_any))>>,
+                                 <<SIf(<<EBin("==", ECallB("typeof", <<EVar("e", T_any)>>), EStr(<<115, 116, 114, 105, 110, 103>>))>>, << <<SBrk>> >>, <<>>),
+                                   Pr(<<EVar("e", T_any)>>)>>),
+                            SInfer("cfg", EML(EMap(<<<<97>>, <<98>>>>, <<ENum(I(1)), EStr(<<122>>)>>), 1)),
+                            SIf(<<EBin(">", ECallB("len", <<EVar("m", TMap(T_any))>>), Num(5))>>, << <<SRetV(Num(0), T_num)>> >>, <<>>),
+                            Pr(<<EVar("cfg", TMap(T_any)), EVar("m", TMap(T_any))>>),
+                            SRetV(ECallB("len", <<EVar("xs", TArr(T_any))>>), T_num)>>)
+      IN [Program(<<SDecl("vals", TArr(T_any)), SAsg(vals, EArr(<<Num(1), Num(2), Num(3)>>)), SDecl("mm", TMap(T_any)),
+                    SAsg(mm, EML(EMap(<<<<107>>, <<106>>>>, <<EArr(<<Num(1)>>), Num(2)>>), 1)),
+                    SInfer("nest", EArr(<<EArr(<<Num(1), Num(2)>>), EArr(<<EStr(<<97>>), EStr(<<98>>)>>)>>)),
+                    Pr(<<vals, mm, EVar("nest", TArr(TArr(T_any))), ECallU("show", FSig(show), <<EArr(<<Num(7), EStr(<<115>>), Num(8)>>), EMap(<<<<113>>>>, <<EBool(TRUE)>>)>>)>>),
+                    SWhile(EBool(TRUE), <<SAsg(vals, EBin("+", vals, EArr(<<Num(4), EStr(<<122>>)>>))),
+                                           SIf(<<EBin(">", ECallB("len", <<vals>>), Num(6))>>, << <<SAsg(mm, EML(EMap(<<<<120>>>>, <<Num(9)>>), 1)), SBrk>> >>, <<>>)>>),
+                    Pr(<<vals, mm>>)>>, <<show>>, <<>>) EXCEPT !.fl = TRUE]
+Progs == << Seed(NoIns), Seed2, P3, P4, P5 >>
 
 TDigit(code, i) == (code \div (7 ^ (i % 9))) % 7
 TailDigit(code) == (code \div 7) % 5
